@@ -60,11 +60,17 @@ ASSUMPTIONS = [
 ]
 
 CLASSES = ["random", "partial_disjoint", "coincident", "k_gt_available", "n1", "odd_index", "ids_tomos_hostile",
-           "gimbal_same_ori", "clustered_paired", "big_shifts", "close_calls", "large", "disjoint", "reuse_in_place"]
+           "gimbal_same_ori", "clustered_paired", "big_shifts", "close_calls", "large", "disjoint", "reuse_in_place",
+           "adjacent_big_tomo_ids", "block_sizes"]
 DIRECT = ["nn_rows", "nn_identity", "nn_distance", "nn_offset", "nn_frame_offset", "nn_angular", "nn_relative_orientation"]
 RIGID = ["rigid_structure", "rigid_distance", "rigid_frame_offset", "rigid_angular", "rigid_relative_orientation"]
 GEN_TIE = 1e-7
 MON_TIE = 1e-9
+POSE = ["x", "y", "z", "shift_x", "shift_y", "shift_z", "phi", "theta", "psi"]
+# adjacent integral numbers at representability boundaries (np.isclose's default rtol merges neighbours >= 1e5, float32 cannot
+# tell neighbours >= 2**24 apart, int32 ends at 2**31 - 1, float64 integers end at 2**53)
+BIG_BASES = [1e5, 123456.0, 999999.0, 2.0 ** 24 - 1, 2.0 ** 24, 2.0 ** 31 - 2, 2.0 ** 31, 1e9, 2.0 ** 53 - 8]
+BLOCK_SIZES = [63, 64, 65, 65, 127, 128, 129, 129, 199, 200, 200, 40, 41, 80, 81]
 
 
 def plan(tier):
@@ -73,12 +79,12 @@ def plan(tier):
         me.update({m: 220 for m in RIGID})
         me["knn_query"] = 500
         me["reused_objects"] = 60
-        return dict(n_cases=280, shards=3, classes=CLASSES, timeout_s=600, min_evals=me)
+        return dict(n_cases=320, shards=4, classes=CLASSES, timeout_s=600, min_evals=me)
     me = {m: 8000 for m in DIRECT}
     me.update({m: 3700 for m in RIGID})
     me["knn_query"] = 8000
     me["reused_objects"] = 1000
-    return dict(n_cases=4480, shards=16, classes=CLASSES, timeout_s=3000, min_evals=me)
+    return dict(n_cases=4800, shards=16, classes=CLASSES, timeout_s=3000, min_evals=me)
 
 
 # ---- judging a returned table against the brute-force reference ------------------------------------
@@ -90,9 +96,10 @@ def _is_motl(m):
 def _finite(m):
     try:
         v = m.df[orc.NEED].to_numpy(dtype=float)
+        pose = m.df[POSE].to_numpy(dtype=float)
     except Exception:
         return False
-    return bool(np.all(np.isfinite(v)) and np.abs(v).max() < 1e9)
+    return bool(np.all(np.isfinite(v)) and np.abs(pose).max() < 1e9)
 
 
 def judge_table(ref, table):
@@ -194,6 +201,9 @@ def _post_stats(ctx, A, ref, result):
     ctx.extra["queries_judged"] = ctx.extra.get("queries_judged", 0) + len(ref["queries"])
     if any(v < int(A["nn_number"]) for v in ref["avail"].values()):
         ctx.extra["calls_with_k_gt_available"] = ctx.extra.get("calls_with_k_gt_available", 0) + 1
+    tom = np.unique(np.concatenate([A["motl_a"].df["tomo_id"].to_numpy(dtype=float), A["motl_nn"].df["tomo_id"].to_numpy(dtype=float)]))
+    if len(tom) > 1 and np.any((np.diff(tom) == 1) & (tom[1:] >= 1e5)):
+        ctx.extra["calls_with_adjacent_tomogram_numbers_ge_1e5"] = ctx.extra.get("calls_with_adjacent_tomogram_numbers_ge_1e5", 0) + 1
     if ref["min_rel_gap"] < 1e-5:               # a decision between two candidates closer than 1e-5 relative was judged
         ctx.extra["calls_with_relative_distance_gap_below_1e-5"] = ctx.extra.get("calls_with_relative_distance_gap_below_1e-5", 0) + 1
     if A["motl_a"] is A["motl_nn"]:
@@ -214,6 +224,8 @@ def _snap_knn(A):
 def _post_knn(ctx, A, old, result):
     Pa, Pb = old
     k = int(A["nn_number"])
+    if len(Pa) in (63, 64, 65, 127, 128, 129, 199, 200):
+        ctx.extra["knn_query_with_%d_queries" % len(Pa)] = ctx.extra.get("knn_query_with_%d_queries" % len(Pa), 0) + 1
     w = None
     try:
         oidx, nidx, ndist, ncount = result
@@ -308,9 +320,41 @@ def _make_list(rng, n, tomos, ori, P, shift_amp, id_kind, int_xyz=False):
             sel = np.flatnonzero(df["tomo_id"].to_numpy() == t)
             ids[sel] = rng.permutation(len(sel)) + 1
         df["subtomo_id"] = ids
+    elif id_kind == "big_adjacent":            # consecutive numbers starting at a representability boundary, unsorted
+        base = float(rng.choice(BIG_BASES[:-1] + [2.0 ** 53 - n - 2]))
+        df["subtomo_id"] = base + rng.permutation(n).astype(float)
     elif id_kind == "huge":
         df["subtomo_id"] = (rng.choice(np.arange(1, 10 * n + 10), n, replace=False) + 10_000_000).astype(float)
     return df
+
+
+def _plant_close_pairs(rng, dfa, dfb, nq):
+    """for up to nq query particles of list a: two (or three) candidates of list b in the same tomogram are put on shells around
+    the query whose radii differ by 3e-7..1e-5 relative - far above the tie exclusion (the float64 brute force is decisive), far
+    below the float32 spacing of coordinates of a few thousand - and closer than the query's other candidates are likely to be.
+    -> number of planted queries"""
+    Pa = gens.positions(dfa)
+    ta, tb = dfa["tomo_id"].to_numpy(), dfb["tomo_id"].to_numpy()
+    free = {t: list(rng.permutation(np.flatnonzero(tb == t))) for t in set(tb.tolist())}
+    planted = 0
+    xyz = dfb[["x", "y", "z"]].to_numpy().copy()
+    sh = dfb[["shift_x", "shift_y", "shift_z"]].to_numpy()
+    for q in rng.permutation(len(dfa))[: 4 * nq]:
+        if planted >= nq:
+            break
+        m = int(rng.choice([2, 2, 3]))
+        pool = free.get(ta[q], [])
+        if len(pool) < m:
+            continue
+        sel = [pool.pop() for _ in range(m)]
+        r0 = float(rng.uniform(1.5, 8.0))
+        gap = 10.0 ** rng.uniform(np.log10(3e-7), -5.0, m)
+        rad = r0 * np.cumprod(1.0 + gap)[rng.permutation(m)]
+        u = rng.normal(size=(m, 3)); u /= np.linalg.norm(u, axis=1, keepdims=True)
+        xyz[sel] = Pa[q] + u * rad[:, None] - sh[sel]
+        planted += 1
+    dfb[["x", "y", "z"]] = xyz
+    return planted
 
 
 def _odd_index(rng, df, kind):
@@ -381,6 +425,11 @@ def gen(ctx, i, cls):
         na, nb = int(rng.integers(100, 201)), int(rng.integers(100, 201))
         if rng.random() < 0.3:
             nb = 200
+    block = cls == "block_sizes" or (cls not in ("n1", "k_gt_available") and rng.random() < 0.25)
+    if block:                                   # block / leaf boundaries of batched or tree-based rewrites, and the largest list allowed
+        na, nb = int(rng.choice(BLOCK_SIZES)), int(rng.choice(BLOCK_SIZES))
+    elif cls == "large" and rng.random() < 0.3:
+        na = 200
     k = int(rng.integers(1, 6))
     pixel = float(rng.choice([1.0, 0.5, 10.0, float(np.round(rng.uniform(0.5, 10.0), 3)), float(rng.uniform(0.5, 10.0)), 2.62]))
     # ---- tomogram sets
@@ -391,6 +440,10 @@ def gen(ctx, i, cls):
             only_a, only_b = 1, 1
     if cls == "ids_tomos_hostile":
         n_sh = int(rng.integers(2, 5))
+    if cls == "adjacent_big_tomo_ids":
+        n_sh, only_a, only_b = int(rng.integers(2, 4)), int(rng.integers(0, 2)), int(rng.integers(0, 2))
+    if block and cls not in ("adjacent_big_tomo_ids", "ids_tomos_hostile", "partial_disjoint", "disjoint") and rng.random() < 0.6:
+        n_sh, only_a, only_b = 1, 0, 0           # the whole list is one subset of boundary size
     n_sh = min(n_sh, 4 - max(only_a, only_b))
     if cls == "disjoint":
         n_sh, only_a, only_b = 0, int(rng.integers(1, 4)), int(rng.integers(1, 4))
@@ -404,6 +457,10 @@ def gen(ctx, i, cls):
         if variant == "nx1" and rng.random() < 0.5:
             only_a = 1
     ids = [float(t) for t in rng.choice(TOMO_POOL, n_sh + only_a + only_b, replace=False)]
+    big_tomo_ids = cls == "adjacent_big_tomo_ids" or rng.random() < 0.25
+    if big_tomo_ids:                            # consecutive tomogram numbers at a representability boundary, in both lists
+        base = float(rng.choice(BIG_BASES))
+        ids = [base + float(j) for j in rng.permutation(len(ids))]
     shared, ta_only, tb_only = ids[:n_sh], ids[n_sh:n_sh + only_a], ids[n_sh + only_a:]
     tomos_a, tomos_b = shared + ta_only, shared + tb_only
     rng.shuffle(tomos_a); rng.shuffle(tomos_b)
@@ -419,7 +476,9 @@ def gen(ctx, i, cls):
     id_a = "gapped"
     id_b = "gapped"
     if cls == "ids_tomos_hostile":
-        id_a, id_b = str(rng.choice(["gapped", "huge", "contiguous"])), str(rng.choice(["per_tomogram", "contiguous", "gapped", "huge"]))
+        id_a, id_b = str(rng.choice(["gapped", "huge", "contiguous", "big_adjacent"])), str(rng.choice(["per_tomogram", "contiguous", "gapped", "huge", "big_adjacent"]))
+    elif rng.random() < 0.15:
+        id_a = id_b = "big_adjacent"
     elif rng.random() < 0.2:
         id_a, id_b = "contiguous", "contiguous"        # same numbers in both lists, different particles
     Pa = _positions(rng, na, pos_kind, box, centres)
@@ -453,7 +512,29 @@ def gen(ctx, i, cls):
         else:                                   # single tomogram: shrink list b below k
             dfb = dfb.iloc[:m].reset_index(drop=True)
             nb = m
+    # coordinates of a few thousand (float32 spacing 1.2e-4..4.9e-4) or far beyond (1e5, 2**24: float32 spacing 2)
+    far = 0.0
+    if cls == "close_calls" or rng.random() < 0.2:
+        far = float(rng.choice([1000.0, 2000.0, 3500.0, 3500.0, 1e5, 2.0 ** 24]))
+        off = far + rng.uniform(0, 0.1 * far, 3)
+        dfa[["x", "y", "z"]] = dfa[["x", "y", "z"]].to_numpy() + off
+        dfb[["x", "y", "z"]] = dfb[["x", "y", "z"]].to_numpy() + off
+    n_close = 0
     if cls == "close_calls":
+        n_close = _plant_close_pairs(rng, dfa, dfb, 12)
+    elif cls not in ("coincident", "n1") and rng.random() < 0.3:
+        n_close = _plant_close_pairs(rng, dfa, dfb, 4)
+    # exact duplicates among the QUERY particles (same complete position, other id and orientation): no distance tie arises,
+    # every duplicate has to be reported on its own
+    n_dup = 0
+    if cls not in ("n1", "coincident") and len(dfa) >= 4 and rng.random() < 0.2:
+        n_dup = min(int(rng.integers(1, 4)), len(dfa) // 2)
+        src, dst = rng.choice(len(dfa), (2, n_dup), replace=False)
+        for c in ("x", "y", "z", "shift_x", "shift_y", "shift_z", "tomo_id"):
+            v = dfa[c].to_numpy().copy()
+            v[dst] = v[src]
+            dfa[c] = v
+    if cls == "close_calls" and rng.random() < 0.4:
         # candidates on shells around one query whose radii differ by 2e-6 relative: decidable, far outside the exclusion
         q = int(rng.integers(0, na))
         t0 = float(dfa["tomo_id"].iloc[q])
@@ -522,15 +603,19 @@ def gen(ctx, i, cls):
         history = str(r3.choice(["fresh", "inplace_both", "inplace_b_then_a"], p=[0.6, 0.25, 0.15]))
     if same_object and history == "inplace_b_then_a":
         history = "inplace_both"
+    # a last step of the history: the tomogram numbers of the second list are reassigned in place (same particle count, same
+    # set of tomograms when possible) and the same objects are analysed once more
+    retag = bool(r3.random() < (0.5 if cls == "reuse_in_place" else 0.12)) and not same_object
     summ = {"cls": cls, "na": int(len(dfa)), "nb": int(len(dfb)), "tomos_a": [float(t) for t in pd.unique(dfa["tomo_id"])], "tomos_b": [float(t) for t in pd.unique(dfb["tomo_id"])],
             "n_shared": len(shared), "k": k, "pixel": pixel,
             "pos": pos_kind, "ori": [ori_a, ori_b], "ids": [id_a, id_b], "index": [idx_a, idx_b], "motions": [mkinds[t] for t in sorted(mkinds)],
-            "same_object": same_object, "call": call_style, "history": history,
+            "same_object": same_object, "call": call_style, "history": history, "retag": retag, "big_tomo_ids": big_tomo_ids, "far": far,
+            "close_pairs": n_close, "dup_queries": n_dup,
             "min_rel_gap": (float("%.2g" % min_gap) if min_gap is not None and np.isfinite(min_gap) else None),
             "a0": {c: float(dfa[c].iloc[0]) for c in ("subtomo_id", "tomo_id", "x", "shift_x", "phi", "theta", "psi")},
             "b0": {c: float(dfb[c].iloc[0]) for c in ("subtomo_id", "tomo_id", "x", "shift_x", "phi", "theta", "psi")}}
     return {"i": i, "cls": cls, "dfa": dfa, "dfb": dfb, "dfa2": dfa2, "dfb2": dfb2, "k": k, "pixel": pixel, "shared": shared,
-            "coincident": coincident, "same_object": same_object, "unresolved_ties": unresolved, "call_style": call_style, "history": history, "summary": summ}
+            "coincident": coincident, "same_object": same_object, "unresolved_ties": unresolved, "call_style": call_style, "history": history, "retag": retag, "summary": summ}
 
 
 def nontrivial(case):
@@ -587,9 +672,6 @@ def _compare_moved(ctx, T0, T1, scale):
                     w["rigid_relative_orientation"] = dict(base, what="rot_x,y,z", before=a[r, 8:11], after=b[r, 8:11])
     for m in RIGID:
         ctx.check(m, w[m] is None, w[m])
-
-
-POSE = ["x", "y", "z", "shift_x", "shift_y", "shift_z", "phi", "theta", "psi"]
 
 
 def _rewrite_in_place(m, moved):
@@ -650,6 +732,12 @@ def run_case(ctx, case):
         return
     P = np.vstack([gens.positions(case["dfa"]), gens.positions(case["dfb"]), gens.positions(case["dfa2"]), gens.positions(case["dfb2"])])
     _compare_moved(ctx, T0, T1, max(1.0, float(np.abs(P).max()) * case["pixel"]))
+    if case["retag"]:
+        A3, B3 = (A, B) if case["history"] != "fresh" else (A2, B2)
+        B3.df["tomo_id"] = np.roll(B3.df["tomo_id"].to_numpy(), 1 + case["i"] % 3)     # in place, positionally
+        if set(A3.df["tomo_id"]) & set(B3.df["tomo_id"]):
+            okr, Tr = _call_stats(ctx, "get_nn_stats(second list re-tagged in place)", A3, B3, case)
+            ctx.check("reused_objects", okr and isinstance(Tr, pd.DataFrame), {"what": "no table after re-assigning tomogram numbers in place"})
 
 
 def extra(ctx):
